@@ -1402,8 +1402,8 @@ func SupportedTcbLevelsFromCollateral(quote any, options *Options) (pcs.TcbLevel
 // based on the quote's SignatureAlgo, provided the certificate chain is valid.
 func tdxQuoteV4(quote *pb.QuoteV4, options *Options) error {
 	logger.V(1).Info("Checking that the quote parameters meet the required size")
-	logger.V(2).Info("Quote Version found: ", quote.Header.Version)
-	logger.V(2).Infof("Quote TeeType found: 0x%x", quote.Header.TeeType)
+	logger.V(2).Info("Quote Version found: ", quote.GetHeader().GetVersion())
+	logger.V(2).Infof("Quote TeeType found: 0x%x", quote.GetHeader().GetTeeType())
 
 	if err := abi.CheckQuoteV4(quote); err != nil {
 		return fmt.Errorf("QuoteV4 invalid: %v", err)
